@@ -58,3 +58,15 @@ Print Assumptions C18_distinct_names_safe.
 Theorem C18_shared_name_refuted : exists sched, nloaded (nrun (fun _ => 0) sched ninit) 1 = Some Partial.
 Proof. exact shared_name_refuted. Qed.
 Print Assumptions C18_shared_name_refuted.
+
+(* ---- the protocol the theorems are about is the one the CODE follows: kerneldll.make_dll of the current tree, read
+   as a build protocol on every run (Gen/C18_code.v: where the compiler writes, how the result gets its final name,
+   what the clean-up clause does).  For every schedule, every kill point and every mixture of steps and failing
+   builds, the invariant holds for the code's protocol. *)
+From SM Require Import Gen.C18_code.
+Theorem C18_code_publish_safe : translated = true -> forall sched, Inv (run code_protocol sched init).
+Proof. intros Ht. try solve [vm_compute in Ht; discriminate Ht]. all: exact rename_safe. Qed.
+Print Assumptions C18_code_publish_safe.
+Theorem C18_code_unwind_safe : translated = true -> forall evs, Inv (erun code_publish_on_unwind evs init).
+Proof. intros Ht. try solve [vm_compute in Ht; discriminate Ht]. all: exact unwind_safe. Qed.
+Print Assumptions C18_code_unwind_safe.
